@@ -640,7 +640,7 @@ func (hc *connectUnaryHandlerConn) writeResponseHeader(err error) {
 	header := hc.responseWriter.Header()
 	if err != nil {
 		if connectErr, ok := asError(err); ok {
-			mergeHeaders(header, connectErr.meta)
+			mergeErrorMetadata(header, connectErr.meta)
 		}
 	}
 	for k, v := range hc.responseTrailer {
@@ -719,7 +719,7 @@ func (m *connectStreamingMarshaler) MarshalEndStream(err error, trailer http.Hea
 	end := &connectEndStreamMessage{Trailer: trailer}
 	if err != nil {
 		if connectErr, ok := asError(err); ok {
-			mergeHeaders(end.Trailer, connectErr.meta)
+			mergeErrorMetadata(end.Trailer, connectErr.meta)
 			end.Error = (*connectWireError)(connectErr)
 		} else {
 			end.Error = (*connectWireError)(NewError(CodeUnknown, err))
